@@ -20,7 +20,7 @@ from vk.ref import cmd as refcmd
 SOME = b"\x08\x00\x18\x00\x06\x00\x00\x001.2.3\x00"
 
 
-def eval_msg(name, ds_kind):
+def eval_msg(name, ds_kind, max_pdu=16382):
     from pynetdicom import dimse_primitives as dp
     from pynetdicom.dimse import _RQ_TO_MESSAGE, _RSP_TO_MESSAGE
     from pynetdicom.dimse_messages import DIMSEMessage
@@ -38,9 +38,11 @@ def eval_msg(name, ds_kind):
             setattr(prim, ds_kw, BytesIO(b""))
         elif ds_kind == "some":
             setattr(prim, ds_kw, BytesIO(SOME))
+        elif isinstance(ds_kind, int):
+            setattr(prim, ds_kw, BytesIO(bytes((i * 7 + 3) % 251 for i in range(ds_kind))))
     msg = (_RSP_TO_MESSAGE if prim.MessageIDBeingRespondedTo is not None else _RQ_TO_MESSAGE)[type(prim)]()
     msg.primitive_to_message(prim)
-    pdatas = list(msg.encode_msg(1, 16382))
+    pdatas = list(msg.encode_msg(1, max_pdu))
     data_pdvs = sum(1 for p in pdatas for _, b in p.presentation_data_value_list if not b[0] & 1)
     announces = msg.command_set.CommandDataSetType != 0x0101
     bad = []
@@ -224,6 +226,14 @@ def run(ctx: core.Ctx) -> core.Result:
             n1 += 1
             for k, t in eval_msg(name, dk):
                 add(f"{name}:{dk}:{k}", t, {"fn": "msg", "name": name, "ds": dk})
+        if refcmd.MESSAGES[name][4]:
+            # data-set lengths around the multiples of the fragment size (maximum length - 6)
+            for mp in (16382, 32, 0):
+                f = (mp or 16382) - 6
+                for L in sorted({f - 1, f, f + 1, 2 * f - 1, 2 * f, 2 * f + 1, 3 * f}):
+                    n1 += 1
+                    for k, t in eval_msg(name, L, mp):
+                        add(f"{name}:len-k*fragment{L - (L // f) * f if L % f < f // 2 else L % f - f:+d}:{k}", t + f" (maximum length {mp}, data set of {L} bytes)", {"fn": "msg", "name": name, "ds": L, "max_pdu": mp})
     scns = []
     for op in OPS:
         ds_kinds = ["some", "empty"] if op not in ("n_get", "n_delete") else ["none"]
@@ -244,7 +254,7 @@ def run(ctx: core.Ctx) -> core.Result:
     cov = {
         "evaluations": n1 + tot["executions"],
         "distinct_nontrivial": n1 * 2 // 3 + len(outcomes),
-        "rule": "layer 1: 23 message types x {absent, empty, non-empty} data set through primitive_to_message/encode_msg/decode_msg; layer 2: 10 public send_* operations x request data set {non-empty, empty, None where allowed} x handler response data set {non-empty, empty, None} between two real AEs under the simulator (default schedule; thorough: all schedules with <= 1 deviation); non-trivial = data set present or a distinct end-to-end outcome",
+        "rule": "layer 1: 23 message types x {absent, empty, non-empty} data set, and every message type that carries a data set x maximum length {16382, 32, 0} x 7 data-set lengths around the multiples of the fragment size, through primitive_to_message/encode_msg/decode_msg; layer 2: 10 public send_* operations x request data set {non-empty, empty, None where allowed} x handler response data set {non-empty, empty, None} between two real AEs under the simulator (default schedule; thorough: all schedules with <= 1 deviation); non-trivial = data set present or a distinct end-to-end outcome",
         "end_to_end_scenarios": len(scns),
         "scheduler_steps": tot["steps"],
         "exhaustive": True,
@@ -255,7 +265,7 @@ def run(ctx: core.Ctx) -> core.Result:
 
 def replay(ctx, data):
     if data["fn"] == "msg":
-        print(eval_msg(data["name"], data["ds"]))
+        print(eval_msg(data["name"], data["ds"], data.get("max_pdu", 16382)))
         return 0
     r = explore.execute(EndToEnd(data["op"], data["ds"], data["rsp"]), tuple(data["choices"]))
     print(r["why"], r["summary"], r["viol"])
